@@ -4,6 +4,8 @@
      Joined(i)          instance i has started and registered (join order = order of these events)
      Gone(i)            instance i has stopped and the others can see it (heart-beat stale / expired, ping fails)
      Announce(i, n, t)  instance i published the numbering n/t on its event bus (what the stream acts on)
+     Leader(i)          instance i became the group's leader (leader-assigned numbering: the leader is 1, the others follow
+                        in join order)
      Crashed(i)         instance i ended with a panic
      Stable             the group has been left alone for the bounded number of monitor rounds (emitted by the
                         environment: every live instance completed `K` rounds that began after the last change)
@@ -14,7 +16,7 @@
 EXTENDS Integers, Sequences, FiniteSets, TLC
 CONSTANTS Inst, NVB
 
-MonInit == [live |-> <<>>, cur |-> [i \in Inst |-> <<0, 0>>], viol |-> {}]
+MonInit == [live |-> <<>>, lead |-> 0, cur |-> [i \in Inst |-> <<0, 0>>], viol |-> {}]
 
 Viol(o, msg) == [o EXCEPT !.viol = @ \cup {<<"C10", msg>>}]
 Check(o, c, msg) == IF c THEN o ELSE Viol(o, msg)
@@ -25,12 +27,15 @@ Without(s, x) == SelectSeq(s, LAMBDA y : y # x)
 \* the partition rule (helpers.ChunkSlice, see Chunk.tla): vBuckets 0..NVB-1 in t contiguous chunks
 ChunkLo(n, t) == LET q == NVB \div t  r == NVB % t IN (n - 1) * q + (IF n - 1 < r THEN n - 1 ELSE r)
 ChunkHi(n, t) == ChunkLo(n + 1, t) - 1
+\* the order member numbers follow: join order, a leader (if the mechanism has one and it is alive) first
+Ranked(o) == IF o.lead # 0 /\ o.lead \in Members(o.live) THEN <<o.lead>> \o Without(o.live, o.lead) ELSE o.live
 Owners(o, v) == {i \in Members(o.live) : o.cur[i][2] > 0 /\ o.cur[i][2] <= NVB /\ o.cur[i][1] >= 1 /\ o.cur[i][1] <= o.cur[i][2]
                                          /\ ChunkLo(o.cur[i][1], o.cur[i][2]) <= v /\ v <= ChunkHi(o.cur[i][1], o.cur[i][2])}
 
 MonApply(o, e) ==
   CASE e.ev = "Joined"   -> [o EXCEPT !.live = Append(@, e.i), !.cur[e.i] = <<0, 0>>]
-    [] e.ev = "Gone"     -> [o EXCEPT !.live = Without(@, e.i)]
+    [] e.ev = "Gone"     -> [o EXCEPT !.live = Without(@, e.i), !.lead = IF @ = e.i THEN 0 ELSE @]
+    [] e.ev = "Leader"   -> [o EXCEPT !.lead = e.i]
     [] e.ev = "Announce" ->
          LET o1 == IF e.i \in Members(o.live)
                    THEN Check(o, <<e.n, e.t>> # o.cur[e.i], "a numbering equal to the one in effect was announced again")
@@ -41,7 +46,7 @@ MonApply(o, e) ==
          LET n == Len(o.live)
              o1 == Check(o, \A i \in Members(o.live) : o.cur[i][2] = n, "live instances do not agree on the group size")
              o2 == Check(o1, \A i, j \in Members(o.live) : i # j => o.cur[i][1] # o.cur[j][1], "two live instances hold the same member number")
-             o3 == Check(o2, \A i \in Members(o.live) : o.cur[i][1] = Pos(o.live, i), "member numbers are not 1..size in join order")
+             o3 == Check(o2, \A i \in Members(o.live) : o.cur[i][1] = Pos(Ranked(o), i), "member numbers are not 1..size in join order")
              o4 == IF n > 0 /\ n <= NVB
                    THEN Check(o3, \A v \in 0..(NVB - 1) : Cardinality(Owners(o, v)) = 1, "a vBucket has no owner or several")
                    ELSE o3
